@@ -174,3 +174,13 @@ Proof.
 Qed.
 
 End WithDH.
+
+(* statements of Properties/C08.v *)
+Lemma server_any_peer mexp o hashes s r :
+  fst (op_run (server_prog mexp o hashes) s) = OK r ->
+  permits o (mode_of r) = true /\ exists id, In (h_hash r, id) hashes.
+Proof. exact (all_done_op _ _ (server_prog_done mexp o hashes) s r). Qed.
+Lemma client_any_peer mexp crypto o infohash myid s r :
+  fst (op_run (client_prog mexp crypto o infohash myid) s) = OK r ->
+  permits o (mode_of r) = true /\ h_hash r = infohash.
+Proof. exact (all_done_op _ _ (client_prog_done mexp crypto o infohash myid) s r). Qed.
